@@ -51,7 +51,10 @@ func main() {
 		re = regexp.MustCompile("^Harness_" + *prop + "_")
 	}
 	var sel []*ssa.Function
+	replayThorough = *thorough
+	defer cleanupReplay()
 	for _, h := range L.harnesses() {
+		allHarnessNames = append(allHarnessNames, h.Name())
 		if re == nil || re.MatchString(h.Name()) {
 			if !*thorough && regexp.MustCompile(`_T$`).MatchString(h.Name()) {
 				continue
@@ -99,5 +102,6 @@ func main() {
 		}
 	}
 	code := finish(L, runs, cfg, *prop, *evidence, *replayDir, *known, *repo, *hdir, !*noReplay, loadT, time.Since(t0))
+	cleanupReplay()
 	os.Exit(code)
 }
